@@ -91,6 +91,17 @@ def gen_cases(tier, seed):
     for c in slow:
         c.setdefault('fuzz', False)
     cases += slow
+    # stalls of about a polling interval (0.1 s / 1 s) of the consumer before it stops, or of the source before it fails / ends
+    st = []
+    for i in range(60 if tier == 'quick' else 900):
+        shape = rng.choice(['buffer', 'parmap-thread', 'buffer>parmap', 'parmap>buffer', 'fifo-pre', 'abuffer', 'aparmap', 'synciter'])
+        fail = rng.choice([('none', None, None), ('source', 4, 'Boom'), ('source', 2, 'StopRequested'), ('source', 6, 'Boom')])
+        if shape not in ('buffer', 'abuffer', 'synciter') and rng.random() < 0.3:
+            fail = ('func', 2, 'Boom')
+        st.append({'shape': shape, 'size': rng.choice([1, 2, 3]), 'stop': rng.choice([('exhaust', None), ('break', 1), ('close', 3), ('break', 5)]), 'fail': fail, 'n': L,
+                   'stall': [rng.choice(['consumer', 'source']), rng.randrange(0, L + 1), round(rng.choice([rng.uniform(0.09, 0.25), rng.uniform(0.09, 0.25), rng.uniform(1.0, 1.06)]), 4)],
+                   'fuzz': True, 'fuzz_seed': rng.randrange(1 << 30)})
+    cases += st
     rng.shuffle(cases)
     return cases
 
@@ -120,12 +131,18 @@ def make_source(S, case, stats):
     if site == 'source':
         exc = Boom('src', p) if kind == 'Boom' else StopRequested()
 
+    stall = case.get('stall')
+
     def gen():
         for i, x in enumerate(items):
+            if stall and stall[0] == 'source' and i == stall[1]:
+                time.sleep(stall[2])
             if site == 'source' and i == p:
                 raise exc
             stats['pulled'] += 1
             yield x
+        if stall and stall[0] == 'source' and stall[1] >= len(items):
+            time.sleep(stall[2])
         if site == 'source' and p >= len(items):
             raise exc
 
@@ -215,6 +232,9 @@ def _norm_term(e):
     return ('RAISED', norm_exc(e))
 
 
+STALL = {'at': None, 'dur': 0.0}  # consumer stall of the current case: after `at` outputs sleep `dur` seconds
+
+
 def drive_sync(it, stop):
     """Consume per the stop plan. Returns (outputs, terminal, raised_count, after)."""
     kind, pos = stop
@@ -227,6 +247,8 @@ def drive_sync(it, stop):
         else:
             for z in it:
                 out.append(norm_exc(z))
+                if STALL['at'] is not None and len(out) == STALL['at']:
+                    time.sleep(STALL['dur'])
                 if kind != 'exhaust' and len(out) >= pos:
                     term = ('STOPPED',)
                     break
@@ -265,6 +287,8 @@ async def drive_async(ait, stop):
         else:
             async for z in ait:
                 out.append(norm_exc(z))
+                if STALL['at'] is not None and len(out) == STALL['at']:
+                    await asyncio.sleep(STALL['dur'])
                 if kind != 'exhaust' and len(out) >= pos:
                     term = ('STOPPED',)
                     break
@@ -358,8 +382,13 @@ def run_case(case):
         raise ValueError(shape)
 
     is_async = shape in ('abuffer', 'aparmap', 'aparmap-async', 'asynciter')
+    STALL['at'], STALL['dur'] = None, 0.0
+    if case.get('stall') and case['stall'][0] == 'consumer':
+        STALL['at'], STALL['dur'] = max(1, case['stall'][1]), case['stall'][2]
     fz = schedfuzz.SchedFuzz(seed=case['fuzz_seed'], p=0.04, changepoints=1, changepoint_delay=0.01) if case.get('fuzz') else schedfuzz.NullFuzz()
     fz.add(S.Buffer, S.fifo_stream, Q.SingleLane.put, Q.SingleLane.get, SA.SyncIter, SA.AsyncBuffer)
+    if case.get('stall') and not is_async:
+        fz.add_handler_sites(S.Buffer, S.fifo_stream, SA.SyncIter, prob=0.5, delay=0.01)
 
     def body():
         if is_async:
